@@ -20,6 +20,7 @@ pub mod c15;
 pub mod c17;
 pub mod c18;
 pub mod env;
+pub mod mmr;
 pub mod node;
 pub mod sync;
 pub mod prove;
@@ -451,6 +452,7 @@ pub fn main() {
         "C15" => c15::run(&opts),
         "C17" => c17::run(&opts),
         "C18" => c18::run(&opts),
+        "MMR" => mmr::run(&opts),
         "SIMTEST" => simtest::run(&opts),
         other => {
             eprintln!("unknown property {}", other);
